@@ -110,6 +110,8 @@ def scaler_alphabet(tier, seed):
     a += [Batch(b) for b in ([-2, 0, 1, 1, 1e3], [1e3, 1, 1, 0, -2], [1, 1, 1, 1, 0], [1e3, 1e3, 1e3, 1e3, -2])]
     # constant batches of values that are not binary fractions (round-off in the running mean)
     a += [Batch([0.1] * 3), Batch([0.7] * 5)]
+    # multi-dimensional batches (multi-start / augmentation advantages are [batch, starts]): every VALUE counts
+    a += [Batch([-2, 0, 1, 1, 1e3, 0], shape=[2, 3]), Batch([1, 0, -2, 1], shape=[2, 2])]
     if tier == "thorough":
         a += [Batch([1.0 / 3] * 2), Batch([-2, 0, 1e3], shape=[1, 3]), Batch([1, 1, 1, 1, 1], shape=[5, 1])]
     a += _random_batches(seed, 1)
